@@ -9,6 +9,7 @@ import (
 	"math/big"
 	"os"
 	"path/filepath"
+	"strings"
 	"testing"
 	"unicode"
 
@@ -64,8 +65,21 @@ type c43Acct struct {
 	Others []c43Other `json:"others"`
 }
 
+// c43Op is one step of the wallet history after the accounts exist. Account positions are resolved
+// modulo the current number of accounts inside run.
+type c43Op struct {
+	Op    string   `json:"op"`              // tolow | todefault | chpw | delete | setdefault | setlabel | new | reload
+	At    int      `json:"at,omitempty"`    // account position
+	Mode  string   `json:"mode,omitempty"`  // tolow/todefault: right | wrong-at | all-wrong; chpw/delete: right | wrong
+	Pw    ev.B     `json:"pw,omitempty"`    // chpw: the new password
+	Wrong ev.B     `json:"wrong,omitempty"` // material of the wrong password(s)
+	Label string   `json:"label,omitempty"` // setlabel
+	Acct  *c43Acct `json:"acct,omitempty"`  // new
+}
+
 type c43Case struct {
 	Accts []c43Acct `json:"accts"`
+	Ops   []c43Op   `json:"ops,omitempty"`
 }
 
 type c43KeyKind struct {
@@ -181,7 +195,7 @@ func genC43Acct(t *rapid.T) c43Acct {
 		Via: rapid.SampledFrom([]string{"addr", "label", "index", "default"}).Draw(t, "via"),
 	}
 	a.Pw = genC43Pw(t)
-	n := rapid.IntRange(1, 2).Draw(t, "nothers")
+	n := rapid.SampledFrom([]int{1, 1, 2}).Draw(t, "nothers")
 	for i := 0; i < n; i++ {
 		a.Others = append(a.Others, genC43Other(t, a.Pw))
 	}
@@ -191,7 +205,7 @@ func genC43Acct(t *rapid.T) c43Acct {
 func genC43(t *rapid.T) c43Case {
 	maxAccts := ev.Scale(2, 3)
 	// mostly one account (each scrypt operation costs ~0.25 s)
-	n := rapid.SampledFrom([]int{1, 1, 1, 1, 2, maxAccts}).Draw(t, "naccts")
+	n := rapid.SampledFrom([]int{1, 1, 2, 2, maxAccts}).Draw(t, "naccts")
 	c := c43Case{}
 	for i := 0; i < n; i++ {
 		a := genC43Acct(t)
@@ -199,6 +213,32 @@ func genC43(t *rapid.T) c43Case {
 			a.Label = c.Accts[rapid.IntRange(0, i-1).Draw(t, "labelof")].Label // label clash
 		}
 		c.Accts = append(c.Accts, a)
+	}
+	// history after creation: whole-wallet re-encryption (all passwords right / one wrong / all wrong),
+	// password change, deletion, default/label changes, a late account, re-opening the file
+	kinds := []string{"tolow", "tolow", "tolow", "todefault", "chpw", "chpw", "delete", "setdefault", "setlabel", "new", "reload", "reload"}
+	nOps := rapid.SampledFrom([]int{0, 0, 1, 2, 3}).Draw(t, "nops")
+	for i := 0; i < nOps; i++ {
+		o := c43Op{Op: rapid.SampledFrom(kinds).Draw(t, "op"), At: rapid.IntRange(0, 3).Draw(t, "at")}
+		switch o.Op {
+		case "tolow", "todefault":
+			o.Mode = rapid.SampledFrom([]string{"right", "wrong-at", "wrong-at", "all-wrong"}).Draw(t, "convmode")
+			o.Wrong = rapid.SliceOfN(rapid.ByteRange(0x21, 0x7e), 1, 12).Draw(t, "wrongpw")
+		case "chpw":
+			o.Mode = rapid.SampledFrom([]string{"right", "right", "wrong"}).Draw(t, "chmode")
+			o.Pw = genC43Pw(t)
+			o.Wrong = rapid.SliceOfN(rapid.ByteRange(0x21, 0x7e), 1, 12).Draw(t, "wrongpw")
+		case "delete":
+			o.Mode = rapid.SampledFrom([]string{"right", "right", "wrong"}).Draw(t, "delmode")
+			o.Wrong = rapid.SliceOfN(rapid.ByteRange(0x21, 0x7e), 1, 12).Draw(t, "wrongpw")
+		case "setlabel":
+			o.Label = rapid.SampledFrom([]string{"", "a", "a_1", "main", "renamed", "名前"}).Draw(t, "newlabel")
+		case "new":
+			a := genC43Acct(t)
+			a.Mode, a.Label = "new", ""
+			o.Acct = &a
+		}
+		c.Ops = append(c.Ops, o)
 	}
 	return c
 }
@@ -228,10 +268,29 @@ func secretBytes(pri keypair.PrivateKey) []byte {
 }
 
 type c43Made struct {
-	spec  c43Acct
-	orig  *account.Account
-	label string // label the wallet is expected to hold
+	spec    c43Acct
+	orig    *account.Account
+	label   string // label the wallet is expected to hold
+	pw      []byte // the account's current password
+	deflt   bool   // expected default flag
+	changed bool   // password was changed after creation
+	lateLow bool   // created by NewAccount while the wallet ran on non-default scrypt parameters
 }
+
+// lateKnown routes a refusal of the account's own password to the root-cause key of accounts that
+// NewAccount created in a converted wallet; any other account is a plain violation (returns false).
+func lateKnown(ctx *ev.Ctx, m *c43Made, what string, err error) bool {
+	if !m.lateLow {
+		return false
+	}
+	ctx.Label("finding:late-account-undecryptable")
+	return ctx.Known(c43KeyLateAccount, "%s: the account was created with NewAccount in a wallet whose scrypt parameters are not the defaults (after ToLowSecurity); NewAccount encrypts with the "+
+		"built-in default parameters while getAccount / ChangePassword / re-encryption decrypt with the wallet's, so the account's own password (%x) is refused: %v", what, m.pw, err)
+}
+
+const c43KeyLateAccount = "newaccount-ignores-wallet-scrypt-parameters"
+
+func differs(a, b []byte) bool { return len(a) == 0 || len(b) == 0 || hmacNormalForm(a) != hmacNormalForm(b) }
 
 func sameAccount(ctx *ev.Ctx, what string, orig, got *account.Account, i int) {
 	if got == nil {
@@ -282,7 +341,7 @@ func runC43(ctx *ev.Ctx, c c43Case) {
 	}
 	var donor *account.ClientImpl
 	labels := map[string]bool{}
-	var made []c43Made
+	var made []*c43Made
 
 	for i, a := range c.Accts {
 		kk := c43KeyByName(a.Key)
@@ -317,7 +376,7 @@ func runC43(ctx *ev.Ctx, c c43Case) {
 			if err != nil || acc == nil {
 				ctx.Failf("account %d: NewAccount(%q, %s, %s, pw %x) failed: %v", i, a.Label, a.Key, a.Scheme, []byte(a.Pw), err)
 			}
-			made = append(made, c43Made{spec: a, orig: acc, label: a.Label})
+			made = append(made, &c43Made{spec: a, orig: acc, label: a.Label, pw: a.Pw, deflt: len(made) == 0})
 			if a.Label != "" {
 				labels[a.Label] = true
 			}
@@ -359,7 +418,7 @@ func runC43(ctx *ev.Ctx, c c43Case) {
 			if err != nil {
 				ctx.Failf("account %d: ImportAccount(label %q, %s, %s) failed: %v", i, a.Label, a.Key, a.Scheme, err)
 			}
-			made = append(made, c43Made{spec: a, orig: acc, label: want})
+			made = append(made, &c43Made{spec: a, orig: acc, label: want, pw: a.Pw, deflt: len(made) == 0})
 			if want != "" {
 				labels[want] = true
 			}
@@ -370,6 +429,10 @@ func runC43(ctx *ev.Ctx, c c43Case) {
 	if len(made) == 0 {
 		ctx.Label("empty-wallet")
 		return
+	}
+
+	if runC43Ops(ctx, c, path, &cli, &made) {
+		ctx.Label("wallet:non-default-scrypt-at-end")
 	}
 
 	// the saved file is password-protected: no plain encoding of the secret appears in it
@@ -410,7 +473,7 @@ func runC43(ctx *ev.Ctx, c c43Case) {
 			ctx.Failf("%s: not found by address after reload", what)
 		}
 		if md.Address != addr || md.PubKey != hex.EncodeToString(keypair.SerializePublicKey(m.orig.PublicKey)) ||
-			md.SigSch != m.spec.Scheme || md.Label != m.label || md.IsDefault != (i == 0) {
+			md.SigSch != m.spec.Scheme || md.Label != m.label || md.IsDefault != m.deflt {
 			ctx.Failf("%s: metadata after reload differs: %+v", what, *md)
 		}
 		if mi := cli2.GetAccountMetadataByIndex(i + 1); mi == nil || mi.Address != addr {
@@ -424,34 +487,41 @@ func runC43(ctx *ev.Ctx, c c43Case) {
 		// right password
 		var got *account.Account
 		via := m.spec.Via
-		if (via == "label" && m.label == "") || (via == "default" && i != 0) {
+		if (via == "label" && m.label == "") || (via == "default" && !m.deflt) {
 			via = "addr"
 		}
 		ctx.Label("via:" + via)
 		if p := ev.Catch(func() {
 			switch via {
 			case "label":
-				got, err = cli2.GetAccountByLabel(m.label, m.spec.Pw)
+				got, err = cli2.GetAccountByLabel(m.label, m.pw)
 			case "index":
-				got, err = cli2.GetAccountByIndex(i+1, m.spec.Pw)
+				got, err = cli2.GetAccountByIndex(i+1, m.pw)
 			case "default":
-				got, err = cli2.GetDefaultAccount(m.spec.Pw)
+				got, err = cli2.GetDefaultAccount(m.pw)
 			default:
-				got, err = cli2.GetAccountByAddress(addr, m.spec.Pw)
+				got, err = cli2.GetAccountByAddress(addr, m.pw)
 			}
 		}); p != "" {
 			ctx.Failf("%s: decrypting with the right password panicked: %s", what, p)
 		}
+		if err != nil && lateKnown(ctx, m, what, err) {
+			continue
+		}
 		if err != nil {
-			ctx.Failf("%s: decrypting with its own password (%x) via %s failed: %v", what, []byte(m.spec.Pw), via, err)
+			ctx.Failf("%s: decrypting with its own password (%x) via %s failed after history %s: %v", what, m.pw, via, opsSummary(c), err)
 		}
 		sameAccount(ctx, what, m.orig, got, i)
 		verified++
 
 		// other passwords
-		nf := hmacNormalForm(m.spec.Pw)
-		for _, o := range m.spec.Others {
-			if bytes.Equal(o.Pw, m.spec.Pw) {
+		nf := hmacNormalForm(m.pw)
+		others := m.spec.Others
+		if m.changed {
+			others = append([]c43Other{{Kind: "old-password", Pw: m.spec.Pw}}, others...)
+		}
+		for _, o := range others {
+			if bytes.Equal(o.Pw, m.pw) {
 				ctx.Label("other:identical-skipped")
 				continue
 			}
@@ -465,13 +535,13 @@ func runC43(ctx *ev.Ctx, c c43Case) {
 				ctx.Label("other:hmac-equivalent")
 				if e2 == nil {
 					ctx.Known(c43KnownHMAC, "%s: password %x also unlocks the account protected with %x (same HMAC-SHA256 key after RFC 2104 normalisation: zero padding / pre-hash of >64-byte keys)",
-						what, []byte(o.Pw), []byte(m.spec.Pw))
+						what, []byte(o.Pw), m.pw)
 				}
 				continue
 			}
 			ctx.Label("other:" + o.Kind)
 			if e2 == nil || g2 != nil {
-				ctx.Failf("%s: protected with password %x but password %x (%s) was accepted", what, []byte(m.spec.Pw), []byte(o.Pw), o.Kind)
+				ctx.Failf("%s: protected with password %x but password %x (%s) was accepted", what, m.pw, []byte(o.Pw), o.Kind)
 			}
 			judgedWrong++
 		}
@@ -484,11 +554,214 @@ func runC43(ctx *ev.Ctx, c c43Case) {
 	}
 }
 
+func opsSummary(c c43Case) string {
+	var b []string
+	for _, o := range c.Ops {
+		x := o.Op
+		if o.Mode != "" {
+			x += "/" + o.Mode
+		}
+		b = append(b, x)
+	}
+	return "[" + strings.Join(b, " ") + "]"
+}
+
+// runC43Ops executes the history after creation on the live client, keeping the model (made) in
+// step. It returns whether the wallet currently runs on non-default scrypt parameters.
+func runC43Ops(ctx *ev.Ctx, c c43Case, path string, pcli **account.ClientImpl, pmade *[]*c43Made) (low bool) {
+	for oi, o := range c.Ops {
+		cli, made := *pcli, *pmade
+		n := len(made)
+		if n == 0 {
+			return
+		}
+		m := made[((o.At%n)+n)%n]
+		addr := m.orig.Address.ToBase58()
+		what := fmt.Sprintf("op %d (%s %s on account %d of %d)", oi, o.Op, o.Mode, ((o.At%n)+n)%n, n)
+		ctx.Label("op:" + o.Op)
+		switch o.Op {
+		case "tolow", "todefault":
+			pws := make([][]byte, n)
+			allRight := true
+			for k, mk := range made {
+				pws[k] = mk.pw
+				wrong := append(append([]byte(nil), o.Wrong...), byte('0'+k))
+				if (o.Mode == "wrong-at" && mk == m) || o.Mode == "all-wrong" {
+					if differs(wrong, mk.pw) {
+						pws[k] = wrong
+						allRight = false
+					}
+				}
+			}
+			var err error
+			pn := ev.Catch(func() {
+				if o.Op == "tolow" {
+					err = cli.GetWalletData().ToLowSecurity(pws)
+				} else {
+					err = cli.GetWalletData().ToDefaultSecurity(pws)
+				}
+			})
+			switch {
+			case pn != "":
+				// not judged by this property (a panic converts nothing); counted
+				ctx.Label(o.Op + ":panicked")
+			case err != nil:
+				ctx.Label(o.Op + ":refused")
+			default:
+				ctx.Label(o.Op + ":converted")
+				if !allRight {
+					ctx.Failf("%s: the wallet was re-encrypted although a wrong password was supplied (history %s)", what, opsSummary(c))
+				}
+				low = o.Op == "tolow"
+			}
+			if !allRight && pn == "" && err != nil {
+				ctx.Label("conversion-refused:" + o.Mode)
+			}
+			// the export flow: conversion, then the wallet data is written out
+			if err := cli.GetWalletData().Save(path); err != nil {
+				ctx.Failf("%s: saving the wallet data: %v", what, err)
+			}
+			// whatever the outcome, the account still opens with its own password in this client
+			got, gerr := cli.GetAccountByAddress(addr, m.pw)
+			if gerr != nil && lateKnown(ctx, m, what, gerr) {
+				continue
+			}
+			if gerr != nil {
+				ctx.Failf("%s: afterwards account %s no longer decrypts with its own password (%x) in the same client: %v (history %s)", what, addr, m.pw, gerr, opsSummary(c))
+			}
+			sameAccount(ctx, what+": account after the conversion attempt", m.orig, got, oi)
+		case "chpw":
+			old := m.pw
+			if o.Mode == "wrong" {
+				old = o.Wrong
+			}
+			if len(o.Pw) == 0 || bytes.Equal(old, o.Pw) {
+				ctx.Label("chpw:skipped")
+				continue
+			}
+			var err error
+			if pn := ev.Catch(func() { err = cli.ChangePassword(addr, old, o.Pw) }); pn != "" {
+				ctx.Failf("%s: ChangePassword panicked: %s", what, pn)
+			}
+			if differs(old, m.pw) {
+				if err == nil {
+					ctx.Failf("%s: password of %s changed although the old password given (%x) is not its password (%x)", what, addr, old, m.pw)
+				}
+				ctx.Label("chpw:refused")
+			} else {
+				if err != nil && lateKnown(ctx, m, what, err) {
+					continue
+				}
+				if err != nil {
+					ctx.Failf("%s: ChangePassword with the account's own password (%x) failed: %v (history %s)", what, m.pw, err, opsSummary(c))
+				}
+				m.pw, m.changed = append([]byte(nil), o.Pw...), true
+				ctx.Label("chpw:changed")
+			}
+		case "delete":
+			pw := m.pw
+			if o.Mode == "wrong" {
+				pw = o.Wrong
+			}
+			var acc *account.Account
+			var err error
+			if pn := ev.Catch(func() { acc, err = cli.DeleteAccount(addr, pw) }); pn != "" {
+				ctx.Failf("%s: DeleteAccount panicked: %s", what, pn)
+			}
+			switch {
+			case m.deflt:
+				ctx.Label("delete:default-account")
+				if err == nil {
+					ctx.Label("delete:default-account-deleted")
+					*pmade = removeMade(made, m)
+				}
+			case differs(pw, m.pw):
+				if err == nil || acc != nil {
+					ctx.Failf("%s: account %s deleted / handed out with password %x, its password is %x", what, addr, pw, m.pw)
+				}
+				ctx.Label("delete:refused")
+			default:
+				if err != nil && lateKnown(ctx, m, what, err) {
+					continue
+				}
+				if err != nil {
+					ctx.Failf("%s: DeleteAccount with the account's own password (%x) failed: %v (history %s)", what, m.pw, err, opsSummary(c))
+				}
+				sameAccount(ctx, what+": account handed out by DeleteAccount", m.orig, acc, oi)
+				*pmade = removeMade(made, m)
+				ctx.Label("delete:deleted")
+			}
+		case "setdefault":
+			if err := cli.SetDefaultAccount(addr); err == nil {
+				for _, mk := range made {
+					mk.deflt = mk == m
+				}
+			} else {
+				ctx.Label("setdefault:refused")
+			}
+		case "setlabel":
+			if err := cli.SetLabel(addr, o.Label); err == nil {
+				m.label = o.Label
+			} else {
+				ctx.Label("setlabel:refused")
+			}
+		case "new":
+			if o.Acct == nil {
+				continue
+			}
+			kk := c43KeyByName(o.Acct.Key)
+			scheme, serr := s.GetScheme(o.Acct.Scheme)
+			if kk == nil || serr != nil || len(o.Acct.Pw) == 0 {
+				ctx.Label("skip:malformed-case")
+				continue
+			}
+			var acc *account.Account
+			var err error
+			if pn := ev.Catch(func() { acc, err = cli.NewAccount("", kk.typ, kk.curve, scheme, o.Acct.Pw) }); pn != "" {
+				ctx.Failf("%s: NewAccount panicked: %s", what, pn)
+			}
+			if err != nil || acc == nil {
+				ctx.Failf("%s: NewAccount(%s, %s) failed: %v", what, o.Acct.Key, o.Acct.Scheme, err)
+			}
+			spec := *o.Acct
+			spec.Mode = "late"
+			*pmade = append(made, &c43Made{spec: spec, orig: acc, label: "", pw: spec.Pw, lateLow: low})
+			if low {
+				ctx.Label("new:in-converted-wallet")
+			}
+		case "reload":
+			c2, err := account.NewClientImpl(path)
+			if err != nil {
+				ctx.Failf("%s: re-open saved wallet: %v", what, err)
+			}
+			*pcli = c2
+			if sp := c2.GetWalletData().Scrypt; sp != nil {
+				low = sp.N != keypair.DEFAULT_N
+			}
+		default:
+			ctx.Label("skip:malformed-case")
+		}
+	}
+	return
+}
+
+func removeMade(made []*c43Made, m *c43Made) []*c43Made {
+	out := make([]*c43Made, 0, len(made))
+	for _, x := range made {
+		if x != m {
+			out = append(out, x)
+		}
+	}
+	return out
+}
+
 func TestC43(t *testing.T) {
 	ev.Drive(t, "C43",
 		"cases: wallets of 1..3 accounts over every key type/curve of the wallet CLI (ECDSA P-224/256/384/521/secp256k1, SM2, Ed25519) x every admitted signature scheme, "+
 			"created (NewAccount) or imported from a donor wallet (ImportAccount, incl. label clashes), labels incl. empty/duplicate/non-ASCII, passwords of 1..80 bytes "+
-			"(printable, UTF-8, arbitrary bytes, trailing NUL, exactly 64, longer than 64); then a fresh client re-opens the file. "+
+			"(printable, UTF-8, arbitrary bytes, trailing NUL, exactly 64, longer than 64); then 0..3 further wallet operations: ToLowSecurity / ToDefaultSecurity with all passwords right, "+
+			"one wrong at a chosen position or all wrong (followed by saving the wallet data), ChangePassword / DeleteAccount with the right or a wrong password, SetDefaultAccount, SetLabel, a late NewAccount, re-opening; "+
+			"then a fresh client re-opens the file and every remaining account is opened with its current password and with other passwords (incl. a replaced old password). "+
 			"non-trivial: at least one account was decrypted with its own password after the reload and compared with the original key pair, and at least one "+
 			"password that differs under the HMAC key normal form was tried against it; distinct by JSON encoding of the case (key material itself is drawn by the code under test)",
 		genC43, runC43)
